@@ -33,6 +33,7 @@ import (
 	"fmt"
 	"math/rand"
 	"os"
+	"sort"
 	"strconv"
 	"strings"
 	"sync"
@@ -81,6 +82,8 @@ type c12World struct {
 	xActive bool // a PatchExpired batch of this case is running
 	batches map[int]*c12Batch
 	byGo    map[string]int // goroutine → batch (the hooks carry no caller identity)
+	lockSeq int            // capMu acquisitions observed so far (hooks right after the Lock)
+	seqOf   map[int]int    // batch → number of its capMu acquisition
 	holder  int            // batch observed to have taken capMu (0: nobody)
 	broken  bool
 }
@@ -95,6 +98,19 @@ func c12StatusFilter() *hydrapb.FilterGroup {
 }
 
 func (w *c12World) handler(hook string, args ...any) {
+	if hook == "cap.mid" || hook == "pexp.locked" || hook == "shiftm.locked" {
+		// the caller has just taken capMu: remember the order (it tells which of several waiting calls ran first)
+		g := goid()
+		w.mu.Lock()
+		if bn := w.byGo[g]; bn != 0 {
+			w.lockSeq++
+			w.seqOf[bn] = w.lockSeq
+		}
+		w.mu.Unlock()
+		if hook != "cap.mid" {
+			return
+		}
+	}
 	if hook == "pexp.selected" {
 		// PatchExpired between its count+select step and the per-record patches (no swamp identity in
 		// this hook: only the case's own calls run in this process)
@@ -268,9 +284,25 @@ func (w *c12World) cascade() string {
 		if len(blocked) == 0 {
 			return res
 		}
+		// (a waiting call that has returned is listed in the order in which the calls took capMu)
+		bySeq := func() {
+			w.mu.Lock()
+			sort.Slice(blocked, func(i, j int) bool {
+				a, b := w.seqOf[blocked[i].n], w.seqOf[blocked[j].n]
+				if a == 0 {
+					a = 1 << 30
+				}
+				if b == 0 {
+					b = 1 << 30
+				}
+				return a < b
+			})
+			w.mu.Unlock()
+		}
 		deadline := time.Now().Add(3 * time.Second)
 		progressed := false
 		for !progressed {
+			bySeq()
 			select {
 			case st := <-w.events:
 				o := w.batches[st.b]
@@ -298,6 +330,9 @@ func (w *c12World) cascade() string {
 			default:
 			}
 			for _, o := range blocked {
+				w.mu.Lock()
+				took := w.seqOf[o.n] != 0
+				w.mu.Unlock()
 				select {
 				case <-o.done:
 					o.blocked = false
@@ -305,7 +340,8 @@ func (w *c12World) cascade() string {
 					progressed = true
 				default:
 				}
-				if progressed {
+				// the earliest call that has taken capMu comes first: wait for its return (or its stop)
+				if progressed || took {
 					break
 				}
 			}
@@ -507,7 +543,7 @@ func runC12(in *bufio.Scanner, out *bufio.Writer) {
 		if w != nil {
 			w.cleanup()
 		}
-		w = &c12World{rig: rig, events: make(chan *c12Stop, 16), batches: map[int]*c12Batch{}, byGo: map[string]int{},
+		w = &c12World{rig: rig, events: make(chan *c12Stop, 16), batches: map[int]*c12Batch{}, byGo: map[string]int{}, seqOf: map[int]int{},
 			swName: name.New().Sanctuary("c12").Realm("case").Swamp(fmt.Sprintf("%s-%d", caseNo, runID))}
 		verifhook.SetHandler(w.handler)
 	}
